@@ -71,6 +71,54 @@ theorem quotient_mod_f_spec (n d : Int) (hd : d ≠ 0) :
 
 example : quotientMod (-7) 2 = (-3, -1) ∧ quotientModF (-7) 2 = (-4, 1) ∧ quotientModF 7 (-2) = (-4, -1) := by decide
 
+/-! ## gcd_ext -/
+
+/-- `gcd_ext`: the first component is the non-negative gcd, on every branch of the normalisation -/
+theorem gcdExt_fst (a b : Int) : (gcdExt a b).1 = (Int.gcd a b : Nat) := by
+  unfold gcdExt
+  simp only [NTheory.gcd]
+  by_cases c1 : (a.natAbs == b.natAbs) = true
+  · simp only [c1, ↓reduceIte]
+  simp only [c1, Bool.false_eq_true, ↓reduceIte]
+  by_cases c2 : (b == 0) = true
+  · simp only [c2, ↓reduceIte]
+  simp only [c2, Bool.false_eq_true, ↓reduceIte]
+  by_cases c3 : (a == 0) = true
+  · simp only [c3, ↓reduceIte]
+  simp only [c3, Bool.false_eq_true, ↓reduceIte]
+  by_cases c4 : (b.natAbs == 2 * ((Int.gcd a b : Nat) : Int).natAbs) = true
+  · simp only [c4, ↓reduceIte]
+  simp only [c4, Bool.false_eq_true, ↓reduceIte]
+  by_cases c5 : (a.natAbs == 2 * ((Int.gcd a b : Nat) : Int).natAbs) = true
+  · simp only [c5, ↓reduceIte]
+  simp only [c5, Bool.false_eq_true, ↓reduceIte]
+  cases invNat (a / ↑(a.gcd b) % ↑(b.natAbs / ((Int.gcd a b : Nat) : Int).natAbs)).toNat
+    (b.natAbs / ((Int.gcd a b : Nat) : Int).natAbs) <;> rfl
+
+/-- `gcd_ext`, Bézout identity on the degenerate branches (`|a| = |b|`, `a = 0` or `b = 0`), where GMP's
+documented normalisation fixes the cofactors by hand.  The generic branch (cofactor through the modular
+inverse) is compared with the library and the Bézout oracle by the harness; it has no theorem yet. -/
+theorem gcdExt_bezout_degenerate_partial (a b : Int) (h : a.natAbs = b.natAbs ∨ a = 0 ∨ b = 0) :
+    a * (gcdExt a b).2.1 + b * (gcdExt a b).2.2 = (gcdExt a b).1 := by
+  rw [gcdExt_fst]
+  unfold gcdExt
+  by_cases h1 : a.natAbs = b.natAbs
+  · simp only [h1, beq_self_eq_true, ↓reduceIte]
+    rw [mul_zero, zero_add, mul_sgn]
+    simp only [Int.gcd, h1, Nat.gcd_self]
+  · have h1' : (a.natAbs == b.natAbs) = false := by simpa using h1
+    simp only [h1', Bool.false_eq_true, ↓reduceIte]
+    rcases h with h | h | h
+    · exact absurd h h1
+    · subst h
+      have hb : b ≠ 0 := by intro hb; subst hb; simp at h1
+      have hb' : (b == 0) = false := by simpa using hb
+      simp only [hb', Bool.false_eq_true, ↓reduceIte, beq_self_eq_true, zero_mul, zero_add, mul_sgn]
+      simp [Int.gcd]
+    · subst h
+      simp only [beq_self_eq_true, ↓reduceIte, mul_zero, add_zero, mul_sgn]
+      simp [Int.gcd]
+
 /-! ## modular inverse -/
 
 /-- `mod_inverse`: an inverse in `[0, |m|)` exactly when `gcd a m = 1`. -/
